@@ -454,7 +454,7 @@ Theorem C06_entry_path_text :
   forall path_eq cfg L R es,
     positional cfg -> compare_to path_eq cfg L R = Ok es ->
     Forall (fun e => e_path e = build_orig (e_loc e)) es.
-Proof. exact (fun pe cfg L R es Hp E => compare_to_paths pe cfg Hp L R es E). Qed.
+Proof. exact entry_path_text. Qed.
 Print Assumptions C06_entry_path_text.
 
 (* non-vacuity: keys with every escapable character, nested sequences; every
